@@ -627,10 +627,11 @@ func report(g genesis, h []int, at int, f *finding, mode string) {
 // ---- DFS mode: one open block, O(1) snapshot/rollback of the deliver state between transactions ------------------------------
 
 type dfsCtx struct {
-	c     *chainx.Chain
-	g     genesis
-	ops   []int
-	depth int
+	c          *chainx.Chain
+	g          genesis
+	ops        []int
+	depth      int
+	needDeploy bool // only histories containing a deployment (the others are covered from the full genesis)
 }
 
 var suspects sync.Map // history string -> true (findings of DFS mode, re-validated by replay before being reported)
@@ -645,6 +646,9 @@ func (d *dfsCtx) dfs(h []int, m model, prev obs) {
 		return
 	}
 	for _, oi := range d.ops {
+		if d.needDeploy && len(h)+1 == d.depth && !menu[oi].deploy && !hasDeploy(h) {
+			continue
+		}
 		pop := d.c.Push()
 		cur, m2, _, f := step(d.c, false, m, prev, oi)
 		h2 := append(append([]int{}, h...), oi)
@@ -745,38 +749,35 @@ func main() {
 			nonDeploy = append(nonDeploy, i)
 		}
 	}
-	dfsDepth, replayFull, replayTheme := 3, 2, 3
+	dfsDepth, replayLen := 3, 2
 	if r.Thorough() {
-		dfsDepth, replayFull, replayTheme = 4, 3, 4
+		dfsDepth, replayLen = 4, 3
 	}
 
-	// (1) replay mode: every history with a deployment: length <= replayFull over the full menu, length replayTheme over
-	//     the deploy theme; from the genesis WITHOUT yr/zr so that the first deployment happens inside the history
-	deployTheme := idx("deployY", "deploy/redeploy-private-Z", "z.add", "y.growForeign2", "price*2")
+	// (1) replay mode (fresh chain per history, one tx per block, state read after Commit): every history of <= replayLen
+	//     txs over the deploy theme, from the genesis without yr/zr
+	deployTheme := idx("deployY", "deploy/redeploy-private-Z", "z.add", "y.growForeign2")
+	if r.Thorough() {
+		deployTheme = idx("deployY", "deploy/redeploy-private-Z", "z.add", "y.growForeign2", "price*2", "growX3", "shrinkX2")
+	}
 	type rjob struct {
 		g genesis
 		h []int
 	}
 	var rjobs []rjob
-	seen := map[string]bool{}
-	addR := func(g genesis, h []int) {
-		if k := fmt.Sprint(g, h); hasDeploy(h) && !seen[k] {
-			seen[k] = true
-			rjobs = append(rjobs, rjob{g, h})
+	for d := 1; d <= replayLen; d++ {
+		for _, h := range seqs(deployTheme, d) {
+			if d == replayLen || hasDeploy(h) { // shorter non-deploy histories are prefixes of the longer ones
+				rjobs = append(rjobs, rjob{genesis{}, h})
+			}
 		}
-	}
-	for d := 1; d <= replayFull; d++ {
-		for _, h := range seqs(all, d) {
-			addR(genesis{}, h)
-		}
-	}
-	for _, h := range seqs(deployTheme, replayTheme) {
-		addR(genesis{}, h)
 	}
 	if os.Getenv("C09_PROF") != "" {
 		rjobs = nil
 	}
-	sort.SliceStable(rjobs, func(i, j int) bool { return len(rjobs[i].h) < len(rjobs[j].h) })
+	t00 := time.Now()
+	warm := newChain(true, true) // the first chain of a process loads and caches the stdlibs: do it once, not once per worker
+	fmt.Printf("warm-up chain: %.1fs\n", time.Since(t00).Seconds())
 	var rdone atomic.Int64
 	r.ParFor(len(rjobs), func(i int) {
 		if at, f := replay(rjobs[i].g, rjobs[i].h); f != nil {
@@ -786,40 +787,67 @@ func main() {
 		rdone.Add(1)
 	})
 
-	// (2) DFS mode: every history of length <= dfsDepth over the non-deploy menu, genesis with all four realms deployed
-	g := genesis{true, true}
-	prefixLen := 2
-	prefixes := seqs(nonDeploy, prefixLen)
-	pool := make(chan *chainx.Chain, 64)
+	tReplay := time.Since(t00)
+	// (2) DFS mode. A: every history of <= dfsDepth txs over the non-deploy menu from the genesis with all four realms;
+	//     B: every history of <= dfsDepth txs over the FULL menu that contains a deployment, from the genesis without yr/zr.
+	type djob struct {
+		g      genesis
+		ops    []int
+		prefix []int
+		need   bool
+	}
+	var djobs []djob
+	for _, p := range seqs(nonDeploy, 2) {
+		djobs = append(djobs, djob{genesis{true, true}, nonDeploy, p, false})
+	}
+	deployMenu := idx("deployY", "deploy/redeploy-private-Z", "z.add", "y.growForeign2", "y.hold", "y.drop", "y.growOwn2", "x.replacePub", "growX3", "shrinkX2", "price*2", "param.setStr-long")
+	for _, p := range seqs(deployMenu, 2) {
+		djobs = append(djobs, djob{genesis{}, deployMenu, p, true})
+	}
+	pools := map[genesis]chan *chainx.Chain{{true, true}: make(chan *chainx.Chain, 64), {}: make(chan *chainx.Chain, 64)}
+	warm.BeginBlock()
+	pools[genesis{true, true}] <- warm
+	created := map[genesis]*atomic.Int64{{true, true}: new(atomic.Int64), {}: new(atomic.Int64)}
+	maxChains := map[genesis]int64{{true, true}: 9, {}: 5}
 	var ddone atomic.Int64
-	r.ParFor(len(prefixes), func(i int) {
+	r.ParFor(len(djobs), func(i int) {
+		j := djobs[i]
+		// chain creation is the expensive part (it copies the whole stdlib store): a bounded number of chains per genesis
 		var c *chainx.Chain
 		select {
-		case c = <-pool:
+		case c = <-pools[j.g]:
 		default:
-			c = newChain(g.withY, g.withZ)
-			c.BeginBlock()
+			if created[j.g].Add(1) <= maxChains[j.g] {
+				c = newChain(j.g.withY, j.g.withZ)
+				c.BeginBlock()
+			} else {
+				c = <-pools[j.g]
+			}
 		}
-		defer func() { pool <- c }()
+		defer func() { pools[j.g] <- c }()
 		pop := c.Push()
 		defer pop()
-		m := model{price: 100, zGen: 1}
+		m := model{price: 100}
+		if j.g.withZ {
+			m.zGen = 1
+		}
 		prev := observe(c)
 		h := []int{}
-		for _, oi := range prefixes[i] {
+		for _, oi := range j.prefix {
 			var f *finding
 			prev, m, _, f = step(c, false, m, prev, oi)
 			h = append(h, oi)
 			if f != nil {
-				suspects.Store(fmt.Sprint(g, h), suspect{g, append([]int{}, h...)})
+				suspects.Store(fmt.Sprint(j.g, h), suspect{j.g, append([]int{}, h...)})
 				ddone.Add(1)
 				return
 			}
 		}
-		(&dfsCtx{c: c, g: g, ops: nonDeploy, depth: dfsDepth}).dfs(h, m, prev)
-		r.Distinct("dfs" + fmt.Sprint(prefixes[i]))
+		(&dfsCtx{c: c, g: j.g, ops: j.ops, depth: dfsDepth, needDeploy: j.need}).dfs(h, m, prev)
+		r.Distinct("dfs" + fmt.Sprint(j.g, j.prefix))
 		ddone.Add(1)
 	})
+	tDFS := time.Since(t00) - tReplay
 	// re-validate DFS findings on a fresh chain with real commits (shortest first)
 	var sus []suspect
 	suspects.Range(func(_, v any) bool { sus = append(sus, v.(suspect)); return true })
@@ -848,7 +876,8 @@ func main() {
 		"partial refunds are checked against the proportional rule floor(Deposit x released / Storage) implemented and documented in keeper.go; the statement itself only fixes the two ends (growth price, full refund)",
 		"a realm can never release ALL its storage (its package objects stay), so 'free everything refunds everything' is checked as: Storage==0 => Deposit==0, the refund rule at every shrink, and Deposit == Storage x price in price-stable histories",
 	}
-	exh := rdone.Load() == int64(len(rjobs)) && ddone.Load() == int64(len(prefixes))
-	r.Finish(fmt.Sprintf("DFS: every history of <=%d txs over the %d non-deploy ops (genesis with 4 realms); replay: every history with a deployment of <=%d txs over the full %d-op menu and of %d txs over a 5-op deploy theme; invariants I1-I9 re-derived from raw store bytes after every tx; distinct = completed replay histories + DFS subtrees", dfsDepth, len(nonDeploy), replayFull, len(menu), replayTheme),
-		exh, map[string]any{"states": nStates.Load(), "transitions": nTx.Load(), "traces_validated_against_impl": nTx.Load(), "replay_histories": len(rjobs), "dfs_subtrees": len(prefixes), "dfs_depth": dfsDepth, "menu": len(menu)})
+	fmt.Printf("phases: replay %.1fs (%d chains) dfs %.1fs revalidate %.1fs\n", tReplay.Seconds(), len(rjobs), tDFS.Seconds(), (time.Since(t00) - tReplay - tDFS).Seconds())
+	exh := rdone.Load() == int64(len(rjobs)) && ddone.Load() == int64(len(djobs))
+	r.Finish(fmt.Sprintf("DFS (open block, snapshot/rollback): every history of <=%d txs over the %d non-deploy ops from the genesis with 4 realms, and every history of <=%d txs over a %d-op deploy menu containing a deployment from the genesis with 2 realms; replay (fresh chain, commit per tx): every history of <=%d txs over a 4-op (thorough 7-op) deploy theme; invariants I1-I9 re-derived from raw store bytes after every tx; distinct = completed replay histories + DFS subtrees", dfsDepth, len(nonDeploy), dfsDepth, len(deployMenu), replayLen),
+		exh, map[string]any{"states": nStates.Load(), "transitions": nTx.Load(), "traces_validated_against_impl": nTx.Load(), "replay_histories": len(rjobs), "dfs_subtrees": len(djobs), "dfs_depth": dfsDepth, "menu": len(menu)})
 }
